@@ -31,7 +31,7 @@ func checkC10(c *Ctx) {
 	// rotating position); the thorough tier repeats with other neighbours
 	rounds := 1
 	if !c.Quick() {
-		rounds = 6
+		rounds = 40
 	}
 	names := []string{"setvar", "cmd", "dothing", "lock", "foo_bar", "é_cmd", "x", "setscope", "warp", "end2"}
 	var recs []map[string]interface{}
